@@ -1615,7 +1615,7 @@ class FuncFileCopy(ValueFunc):
         dest = args.getString("dest").value
         try:
             shutil.copy2(src, dest)
-        except OSError:
+        except (OSError, ValueError):
             raise CklRuntimeError(
                 ValueString("ERROR"),
                 "Cannot copy file " + src + " to " + dest,
@@ -1723,7 +1723,7 @@ class FuncFileMove(ValueFunc):
         dest = args.getString("dest").value
         try:
             os.rename(src, dest)
-        except OSError:
+        except (OSError, ValueError):
             raise CklRuntimeError(
                 ValueString("ERROR"),
                 "Cannot move file " + src + " to " + dest,
@@ -1990,7 +1990,12 @@ class FuncGetEnv(ValueFunc):
         return ["var"]
 
     def execute(self, args, environment, pos):
-        return ValueString(os.environ.get(args.getString("var").value, ""))
+        try:
+            return ValueString(
+                os.environ.get(args.getString("var").value, ""))
+        except ValueError:
+            # a name no variable of the environment can have
+            return ValueString("")
 
 
 class FuncGetOutputString(ValueFunc):
@@ -2568,7 +2573,7 @@ class FuncListDir(ValueFunc):
             self.collectFiles(
                 directory, recursive, include_path, include_dirs, result
             )
-        except OSError:
+        except (OSError, ValueError):
             raise CklRuntimeError(
                 ValueString("ERROR"),
                 "Cannot list directory " + directory,
